@@ -148,6 +148,11 @@ func (ds *NativeSM) Loaded() {
 
 // Close closes the underlying user state machine and set the destroyed flag.
 func (ds *NativeSM) Close() error {
+	// the write lock excludes Lookup and NALookup calls made with a RequestState
+	// obtained before the shard was stopped, they would otherwise be able to
+	// reach the user state machine when it is being closed.
+	ds.mu.Lock()
+	defer ds.mu.Unlock()
 	if err := ds.sm.Close(); err != nil {
 		return err
 	}
